@@ -254,6 +254,41 @@ func init() {
 	I[apiP+"Ite"] = func(t *Thread, fn *ssa.Function, a []Value) Value {
 		return Ite(a[0].(*Term), a[1].(*Term), a[2].(*Term))
 	}
+	I[apiP+"PutIf"] = func(t *Thread, fn *ssa.Function, a []Value) Value {
+		m := a[0].(*MapObj)
+		if m == nil {
+			panic(&goPanic{msg: "assignment to entry in nil map"})
+		}
+		c := a[3].(*Term)
+		// the key is assumed distinct from the keys already present (harness obligation)
+		for _, e := range m.E {
+			t.ex.assume(Not(And(e.P, c, eqValue(e.K, a[1], m.KT))))
+		}
+		m.E = append(m.E, &MapEntry{K: a[1], P: c, V: a[2]})
+		return nil
+	}
+	I[apiP+"DeepCopy"] = func(t *Thread, fn *ssa.Function, a []Value) Value {
+		return deepCopy(a[0], fn.Signature.Params().At(0).Type(), map[*Cell]*Cell{})
+	}
+	I[apiP+"DeepEqual"] = func(t *Thread, fn *ssa.Function, a []Value) Value {
+		return t.deepEqual(a[0], a[1], fn.Signature.Params().At(0).Type())
+	}
+	I[apiP+"InjectiveHash"] = func(t *Thread, fn *ssa.Function, a []Value) Value {
+		noteStub("name hash of names > 7 bytes = uninterpreted injective function")
+		ex := t.ex
+		s := &StrVal{B: sliceBytes(a[0].(*SliceVal))}
+		h := ex.fresh("hash", 64)
+		ex.pc = append(ex.pc, Eq(Extract(h, 7, 0), MkBV(0xff, 8)))
+		for _, p := range ex.hashes {
+			same := eqValue(p.s, s, nil)
+			if same.IsConst() && same.B {
+				return p.h
+			}
+			ex.pc = append(ex.pc, Eq(Eq(h, p.h), same))
+		}
+		ex.hashes = append(ex.hashes, hashRec{s, h})
+		return h
+	}
 	I[apiP+"Unsupported"] = func(t *Thread, fn *ssa.Function, a []Value) Value {
 		unsupportedf("harness: %s", concreteStr(a[0], "reason"))
 		return nil
@@ -268,7 +303,7 @@ func init() {
 	I["(*sync.Mutex).Lock"] = func(t *Thread, fn *ssa.Function, a []Value) Value { t.lock(a[0].(*Cell)); return nil }
 	I["(*sync.Mutex).Unlock"] = func(t *Thread, fn *ssa.Function, a []Value) Value { t.unlock(a[0].(*Cell)); return nil }
 	I["(*sync.Mutex).TryLock"] = func(t *Thread, fn *ssa.Function, a []Value) Value {
-		m := mutexOf(a[0].(*Cell))
+		m := t.ex.mutexFor(a[0].(*Cell))
 		if m.writer != nil || len(m.readers) > 0 {
 			return TFalse
 		}
